@@ -177,6 +177,10 @@ class VLoop(asyncio.BaseEventLoop):
 
     def shutdown(self):
         """What asyncio.run does at the end: cancel leftovers, close the loop."""
+        if self.world is not None and getattr(self.world, "harness_errors", None):
+            from .harness import HarnessError
+            errs, self.world.harness_errors = list(self.world.harness_errors), []
+            raise HarnessError("scripted peer / responder raised: %r" % (errs[0],))
         try:
             tasks = [t for t in asyncio.all_tasks(self) if not t.done()]
             for t in tasks:
@@ -385,6 +389,7 @@ class World:
         self.max_open = 0
         self._buckets = {}
         self.peer_events = []   # (time, error|eof|reset, tid): transport-killing events caused by the peer
+        self.harness_errors = []   # exceptions raised by the scripted peer / responders themselves (see VLoop.shutdown)
         self.resolve = dict(DEFAULT_RESOLVE)   # host names / non-canonical spellings -> numeric address (getaddrinfo stand-in)
 
     # -- transports ----------------------------------------------------------------------------
@@ -507,6 +512,13 @@ class ScriptedPeer:
         return a
 
     def on_transmission(self, world: World, tr, index: int, data: bytes):
+        try:
+            return self._on_transmission(world, tr, index, data)
+        except BaseException as ex:     # a bug in a responder / peer script must never pass for behaviour of the library
+            world.harness_errors.append(ex)
+            raise
+
+    def _on_transmission(self, world: World, tr, index: int, data: bytes):
         a = self.next_action()
         self.history.append((index, a))
         if a[0] == "combo":  # several effects for one transmission, e.g. an answer followed by a late ICMP error
